@@ -1,27 +1,30 @@
 """C03 - Decoded genotypes follow nearest-mutation inheritance and missing-data rules (structural clauses)."""
 from __future__ import annotations
 
+from . import scopes
 from . import lib_variant, lib_module, lib_py, lib_guards, lib_vcf
 
 LEVEL = "other"
-EXPLANATION = ("Event order and conditions in tsk_variant_decode, unconditional child pushes in every traversal, isolated_as_missing "
-               "polarity end to end (C flag, module keyword, deprecated Python alias, option forwarding), exact sample-list guards. "
-               "Does not decide nearest-mutation inheritance or agreement of the five entry points at value level.")
+EXPLANATION = ("Event order and conditions in tsk_variant_decode, unconditional child pushes in the genotype traversals, the missing-"
+               "data marker visits every root, isolated_as_missing polarity end to end (C flag, module keyword, deprecated Python "
+               "alias, option forwarding), exact sample-list guards. Does not decide nearest-mutation inheritance or agreement of "
+               "the five entry points at value level.")
 
 
 def run(ctx):
     P = ctx.program()
     py = ctx.python()
+    ps, ms = scopes.py_scope("C03"), scopes.module_scope("C03")
     lib_variant.variant_decode(ctx, P)
-    lib_variant.traversal_push(ctx, P)
+    lib_variant.traversal_push(ctx, P, tus=["genotypes"])
     lib_vcf.mark_missing(ctx, P)
     lib_module.options_plumbing(ctx, P, funcs={"Variant_init"})
-    lib_module.array_flags(ctx, P)
-    lib_module.parsed_used(ctx, P)
+    lib_module.array_flags(ctx, P, only=ms)
+    lib_module.parsed_used(ctx, P, only=ms)
     lib_py.alias_polarity(ctx, py)
-    lib_py.kw_forward(ctx, py, mods=("trees", "genotypes"))
-    lib_py.unused_params(ctx, py, mods=("trees", "genotypes"))
-    lib_py.ll_positional(ctx, py, P)
+    lib_py.kw_forward(ctx, py, mods=("trees", "genotypes"), only=ps)
+    lib_py.unused_params(ctx, py, mods=("trees", "genotypes"), only=ps)
+    lib_py.ll_positional(ctx, py, P, only=ps)
     funcs = {"variant_init_samples_and_index_map"}
     seen = lib_guards.analyse(ctx, P, funcs=funcs)
     lib_guards.presence(ctx, seen, funcs=funcs)
